@@ -1,4 +1,8 @@
-"""Token-level helpers for the dispatch translators (gen_dispatch.py, gen_ser_dispatch.py):
+"""(The canonicalisation of bodies now lives in rustast.py / rustnorm.py; of this file the translators use the lexer,
+bracket matching, `find_impl` / `functions` (macro invocations of an impl), `parse_pattern` (arm patterns), `subst`,
+`drop_trailing_commas`, `blank_strings` and `coq_string`.)
+
+Token-level helpers for the dispatch translators (gen_dispatch.py, gen_ser_dispatch.py):
 a small Rust lexer (comments dropped, string literals kept as one token), lookup of a `fn` inside an
 `impl` block, splitting of a `match` into arms, parsing of `SchemaNode::..` arm patterns, and the
 canonicalisation of an arm body (aliases of self.<field> substituted, bound names renamed in binding
